@@ -284,21 +284,44 @@ Hypothesis Hdir : rsn_dir_ok ws lastb r.
 Lemma nl_le_lastb : nl <= lastb.
 Proof. unfold lastb, rsn_last. destruct (0 <? nl mod 8); lia. Qed.
 
+Lemma lastb_small : lastb < 2 ^ 40.
+Proof.
+  pose proof (wf_nbits bv Hwf) as Hn. fold nl in Hn. unfold lastb, rsn_last.
+  change (2 ^ 43) with 8796093022208 in Hn. change (2 ^ 40) with 1099511627776.
+  destruct (0 <? nl mod 8); lia.
+Qed.
+
+Lemma R1_small j : R1 ws j < 2 ^ 44.
+Proof.
+  pose proof (R1_le_len ws j) as H. pose proof (wf_len bv Hwf) as Hl. pose proof (wf_nbits bv Hwf) as Hn.
+  fold ws in Hl. fold nl in Hl, Hn. change (2 ^ 43) with 8796093022208 in Hn. change (2 ^ 44) with 17592186044416. lia.
+Qed.
+
 Lemma rsn_block_rank_ok b : b <= lastb -> rsn_block_rank r b = Val (R1 ws (512 * b)).
 Proof.
-  intros Hb. destruct Hdir as (_ & Hp & _). unfold rsn_block_rank, idx.
+  intros Hb. destruct Hdir as (_ & Hp & _). pose proof lastb_small as Hs. change (2 ^ 40) with 1099511627776 in Hs.
+  unfold rsn_block_rank, omul. change (2 ^ 64) with 18446744073709551616.
+  destruct (N.ltb_spec (b * 2) 18446744073709551616); [|lia]. cbn [bind]. unfold idx.
   replace (b * 2) with (2 * b) by lia. rewrite (proj1 (Hp b Hb)). reflexivity.
 Qed.
 
 Lemma rsn_sub_block_rank_ok s : s / 8 <= lastb -> rsn_sub_block_rank r s = Val (R1 ws (64 * s)).
 Proof.
-  intros Hs. destruct Hdir as (_ & Hp & _). unfold rsn_sub_block_rank.
+  intros Hs. destruct Hdir as (_ & Hp & _). pose proof lastb_small as Hsm. change (2 ^ 40) with 1099511627776 in Hsm.
+  unfold rsn_sub_block_rank.
   rewrite RSN_BLOCK_SIZE_val, RSN_SBR_BITS_val, RSN_SBR_MASK_val.
-  rewrite rsn_block_rank_ok by assumption. cbn [bind]. unfold rsn_sub_block_ranks, idx.
+  rewrite rsn_block_rank_ok by assumption. cbn [bind]. unfold rsn_sub_block_ranks, omul, oadd.
+  change (2 ^ 64) with 18446744073709551616.
+  destruct (N.ltb_spec (s / 8 * 2) 18446744073709551616); [|lia]. cbn [bind].
+  destruct (N.ltb_spec (s / 8 * 2 + 1) 18446744073709551616); [|lia]. cbn [bind]. unfold idx.
   replace (s / 8 * 2 + 1) with (2 * (s / 8) + 1) by lia. rewrite (proj2 (Hp (s / 8) Hs)). cbn [bind].
   unfold osub. destruct (N.leb_spec (s mod 8) 7); [|lia]. cbn [bind].
   unfold oshr. destruct (N.ltb_spec ((7 - s mod 8) * 9) 64); [|lia]. cbn [bind].
-  f_equal. rewrite land511, N.shiftr_div_pow2.
+  rewrite land511.
+  match goal with |- (if ?a + ?x mod 512 <? _ then _ else _) = _ =>
+    pose proof (R1_small (512 * (s / 8))) as Hr; change (2 ^ 44) with 17592186044416 in Hr;
+    destruct (N.ltb_spec (a + x mod 512) 18446744073709551616); [|lia] end.
+  f_equal. rewrite N.shiftr_div_pow2.
   replace ((7 - s mod 8) * 9) with (9 * (7 - s mod 8)) by lia. rewrite N.pow_mul_r. change (2 ^ 9) with 512.
   destruct (N.eq_dec (s mod 8) 0) as [E|E].
   - rewrite E. change (7 - 0) with 7. rewrite (N.div_small (encN ws (s / 8)) (512 ^ 7)) by (change (512 ^ 7) with (2 ^ 63); apply encN_lt).
